@@ -181,7 +181,11 @@ class C18(Prop):
         "header mutation of delivered objects; fattree: FatTree(k) k in {2,4,6,8} (thorough 10,12) compared node by node, neighbour list by neighbour list; "
         "fib: generate_flows/generate_fib on FatTree(k) for many seeds with and without tcp, and generate_fib on random graphs with "
         "hand-made paths (incl. non-simple and non-adjacent ones); e2e: simulated fat tree (real Environment, Port, Wire / "
-        "FairPacketSwitch egress ports) with per-class sinks, several flows per class. non-trivial = at least one packet / one flow / "
+        "FairPacketSwitch egress ports) with per-class sinks, several flows per class; twotrees: two FatTree objects (same / different k) "
+        "alive together, generate_flows / generate_fib interleaved in all six orders, each compared with its own model, A's network "
+        "optionally simulated after all calls on B; canary: around 35% of the fattree/fib/e2e cases a fixed FatTree(4) with fixed flows "
+        "is built before, re-read after and rebuilt after the case and compared with recorded tables; hub: a second Hub built "
+        "without arguments alive next to the first. non-trivial = at least one packet / one flow / "
         "k >= 4; distinct by hash of the case")
     trusted_base = [
         "recorders stand in for outputs, end devices, hub endpoints and hub port devices; in the 'switch' kind and the e2e variant 'fair' the "
@@ -217,6 +221,8 @@ class C18(Prop):
         r = rng.random()
         if r < 0.13:
             return self.gen_flowdemux(rng)
+        if r < 0.18:
+            return self.gen_twotrees(rng, tier)
         if r < 0.40:
             return self.gen_fibdemux(rng)
         if r < 0.50:
@@ -226,10 +232,26 @@ class C18(Prop):
         if r < 0.74:
             return self.gen_splitter(rng)
         if r < 0.80:
-            return self.gen_fattree(rng, tier)
-        if r < 0.94:
-            return self.gen_fib(rng, tier)
-        return self.gen_e2e(rng, tier)
+            case = self.gen_fattree(rng, tier)
+        elif r < 0.94:
+            case = self.gen_fib(rng, tier)
+        else:
+            case = self.gen_e2e(rng, tier)
+        # same-process canary: a fixed tree with fixed flows is built and its tables generated BEFORE the case runs, re-read
+        # AFTER it, and built once more afterwards; all three must be the recorded tables
+        if rng.random() < 0.35:
+            case["canary"] = True
+        return case
+
+    ORDERS = ["fa ga fb gb", "fb gb fa ga", "fa fb ga gb", "fa fb gb ga", "fb fa ga gb", "fb fa gb ga"]
+
+    def gen_twotrees(self, rng, tier):
+        """two FatTree objects alive together, used interleaved: each must behave as if it were alone"""
+        ka = rng.choice([2, 4, 4, 6])
+        kb = ka if rng.random() < 0.65 else rng.choice([2, 4, 6])
+        return {"kind": "twotrees", "ka": ka, "kb": kb, "seeda": rng.randrange(10 ** 6), "seedb": rng.randrange(10 ** 6),
+                "nfa": rng.randint(1, 8), "nfb": rng.randint(1, 8), "tcpa": rng.random() < 0.5, "tcpb": rng.random() < 0.5,
+                "order": rng.choice(self.ORDERS), "sim": rng.random() < 0.4, "npk": rng.randint(1, 2)}
 
     def _flow_ids(self, rng, n, known):
         out = []
@@ -352,7 +374,8 @@ class C18(Prop):
                     sd = rng.randint(0, 9)                 # possibly a station that is attached later, or never
                 script.append(["send", sd])
                 senders.append(sd)
-        return {"kind": "hub", "eps": eps, "ports_arg": ports_arg, "delta": delta, "added": [], "srcs": [], "script": script}
+        return {"kind": "hub", "eps": eps, "ports_arg": ports_arg, "delta": delta, "added": [], "srcs": [], "script": script,
+                "twin": rng.random() < 0.3}
 
     def gen_splitter(self, rng):
         if rng.random() < 0.3:
@@ -429,7 +452,50 @@ class C18(Prop):
     # implementation
     def run_impl(self, case):
         with _quiet():
-            return getattr(self, "run_" + case["kind"])(case)
+            can = self._canary_begin() if case.get("canary") else None
+            obs = getattr(self, "run_" + case["kind"])(case)
+            if can is not None:
+                obs["canary"] = self._canary_end(can)
+            return obs
+
+    # a fixed tree and flow set (k = 4; flow 1 between pods through core 0, flow 2 inside pod 0, sharing links; tcp)
+    CANARY_FLOWS = [[1, 20, 35, [20, 6, 4, 0, 16, 19, 35]], [2, 21, 22, [21, 6, 4, 7, 22]]]
+    CANARY_ENTRIES = [[0, 1, 3, 16], [0, 10001, 0, 4], [4, 1, 2, 0], [4, 2, 1, 7], [4, 10001, 0, 6], [4, 10002, 0, 6],
+                      [6, 1, 0, 4], [6, 2, 0, 4], [6, 10001, 2, 20], [6, 10002, 3, 21], [7, 2, 2, 22], [7, 10002, 0, 4],
+                      [16, 1, 1, 19], [16, 10001, 2, 0], [19, 1, 3, 35], [19, 10001, 0, 16], [20, 1, 0, 6], [21, 2, 0, 6],
+                      [22, 10002, 0, 7], [35, 10001, 0, 19]]
+
+    def _canary_tree(self):
+        from onl.topo import FatTree
+        from onl.flow import Flow
+        ft = FatTree(4)
+        flows = {i: Flow(f, s_, d, path=list(p)) for i, (f, s_, d, p) in enumerate(self.CANARY_FLOWS)}
+        ft.generate_fib(flows, tcp=True)
+        return ft
+
+    def _fib_obs(self, ft, fl, keys_ok=True):
+        n, canonical, adj = self._graph_obs(ft.topo)
+        entries, consistent = self._tables(ft.topo)
+        return {"raised": None, "flows": fl, "n": n, "canonical": canonical, "adj": adj, "entries": entries,
+                "consistent": consistent, "keys_ok": keys_ok}
+
+    def _canary_begin(self):
+        try:
+            ft = self._canary_tree()
+            return ft, self._fib_obs(ft, [list(x) for x in self.CANARY_FLOWS])
+        except Exception as e:
+            return None, {"raised": _exc(e)}
+
+    def _canary_end(self, can):
+        ft, before = can
+        if ft is None:
+            return {"before": before, "after": None, "rebuilt": None}
+        try:
+            after = self._tables(ft.topo)[0]
+            rebuilt = self._tables(self._canary_tree().topo)[0]
+        except Exception as e:
+            return {"before": before, "after": None, "rebuilt": None, "raised": _exc(e)}
+        return {"before": before, "after": after, "rebuilt": rebuilt}
 
     # ---- reconfiguration between packets (public attributes, as applications use them) ------------
     @staticmethod
@@ -614,6 +680,7 @@ class C18(Prop):
                 if self.out is not None:
                     self.out.put(p)
 
+        twin = Hub(env) if case.get("twin") else None      # a second hub built without arguments, alive next to the first
         eps = [EP(i, e[0]) for i, e in enumerate(case["eps"])]
         ports = [PortFwd(["port", i], log) if e[1] else None for i, e in enumerate(case["eps"])]
         if case["delta"] == 1:
@@ -648,7 +715,20 @@ class C18(Prop):
                     raised = _exc(e)
                 res.append({"events": [t for t, _ in log], "same": all(p is pk for _, p in log), "raised": raised})
         wiring = all(ep.out is hub for ep in eps) and all(pt is None or pt.out is ep for ep, pt in zip(eps, ports))
-        return {"construct_raised": None, "wiring": wiring, "res": res}
+        obs = {"construct_raised": None, "wiring": wiring, "res": res}
+        if twin is not None:
+            tep = Rec(["twin", 0], log)
+            tep.element_id = "t0"
+            del log[:]
+            traised = None
+            try:
+                twin.add_endpoint(tep, None)
+                twin.put(Packet(0, 10, 0, src="nobody"))
+            except Exception as e:
+                traised = _exc(e)
+            obs["twin"] = {"events": [t for t, _ in log], "raised": traised, "n_endpoints": len(twin.endpoints),
+                           "n_outs": len(twin.outs), "n_ports_attr": len(twin.ports), "main_endpoints": len(hub.endpoints)}
+        return obs
 
     def run_splitter(self, case):
         from onl.netdev.splitter import Splitter, NSplitter
@@ -714,6 +794,9 @@ class C18(Prop):
             ft = FatTree(case["k"])
         except Exception as e:
             return {"raised": _exc(e)}
+        return self._fattree_obs(ft)
+
+    def _fattree_obs(self, ft):
         topo = ft.topo
         n, canonical, adj = self._graph_obs(topo)
         layers = {"core": [], "aggregation": [], "edge": [], "leaf": []}
@@ -772,6 +855,43 @@ class C18(Prop):
         return {"raised": None, "flows": fl, "n": n, "canonical": canonical, "adj": adj, "entries": entries,
                 "consistent": consistent, "keys_ok": keys_ok}
 
+    def run_twotrees(self, case):
+        import random
+        from onl.topo import FatTree
+        try:
+            trees = {"a": FatTree(case["ka"]), "b": FatTree(case["kb"])}
+        except Exception as e:
+            return {"setup_raised": _exc(e)}
+        flows, fl, snap, raised = {}, {}, {}, None
+        try:
+            for step in case["order"].split():
+                x = step[1]
+                if step[0] == "f":
+                    random.seed(case["seed" + x])
+                    flows[x] = trees[x].generate_flows(case["nf" + x])
+                    fl[x] = [[flows[x][key].fid, flows[x][key].src, flows[x][key].dst, list(flows[x][key].path)] for key in flows[x]]
+                else:
+                    trees[x].generate_fib(flows[x], tcp=case["tcp" + x])
+                    snap[x] = self._tables(trees[x].topo)[0]          # as read right after its own generate_fib
+        except Exception as e:
+            return {"setup_raised": _exc(e)}
+        obs = {}
+        for x in "ab":
+            try:
+                o = self._fib_obs(trees[x], fl[x], all(key == flows[x][key].fid for key in flows[x]))
+                o["snap_equal"] = o["entries"] == snap[x]
+                o["shape"] = self._fattree_obs(trees[x])
+            except Exception as e:
+                o = {"raised": _exc(e), "flows": fl[x], "canonical": True, "n": 0, "adj": []}
+            obs[x] = o
+        if case["sim"]:
+            sub = {"kind": "e2e", "k": case["ka"], "tcp": case["tcpa"], "npk": case["npk"], "variant": "portwire", "server": "SP", "ncls": 1}
+            try:
+                obs["sim"] = self._e2e_sim(trees["a"], flows["a"], sub)
+            except Exception as e:
+                obs["sim"] = {"setup_raised": _exc(e)}
+        return obs
+
     def run_e2e(self, case):
         import random
         from onl.sim import Environment
@@ -779,16 +899,24 @@ class C18(Prop):
         from onl.netdev import Port, Wire, FairPacketSwitch
         from onl.netdev.demux import FIBDemux
         from onl.packet import Packet
+        try:
+            ft = FatTree(case["k"])
+            random.seed(case["seed"])
+            flows = ft.generate_flows(case["nflows"])
+            ft.generate_fib(flows, tcp=case["tcp"])
+        except Exception as e:
+            return {"setup_raised": _exc(e)}
+        return self._e2e_sim(ft, flows, case)
+
+    def _e2e_sim(self, ft, flows, case):
+        """build the network of FIB switches from ft's generated tables and simulate it"""
+        from onl.sim import Environment
+        from onl.netdev import Port, Wire, FairPacketSwitch
+        from onl.netdev.demux import FIBDemux
+        from onl.packet import Packet
         k = case["k"]
         env = Environment()
         tcp = case["tcp"]
-        try:
-            ft = FatTree(k)
-            random.seed(case["seed"])
-            flows = ft.generate_flows(case["nflows"])
-            ft.generate_fib(flows, tcp=tcp)
-        except Exception as e:
-            return {"setup_raised": _exc(e)}
         topo = ft.topo
         fl = [[flows[key].fid, flows[key].src, flows[key].dst, list(flows[key].path)] for key in flows]
         hops, sinks = [], []          # (node, class, pid) in global order ; (sink class, node, class, pid)
@@ -878,8 +1006,33 @@ class C18(Prop):
 
     # ============================================================================================
     # model
+    CANARY_CASE = {"kind": "fib", "graph": "fattree", "k": 4, "tcp": True}
+
     def agree_term(self, case, obs):
-        return getattr(self, "agree_" + case["kind"])(case, obs)
+        t = getattr(self, "agree_" + case["kind"])(case, obs)
+        if case.get("canary") and t is not None:
+            c = obs.get("canary") or {}
+            b = c.get("before") or {}
+            if b.get("raised") or c.get("raised") or c.get("after") != b.get("entries") or c.get("rebuilt") != b.get("entries"):
+                return "false"
+            t = f"({t}) && ({self.agree_fib(self.CANARY_CASE, b)})"
+        return t
+
+    def agree_twotrees(self, case, obs):
+        if "setup_raised" in obs:
+            return "false"
+        ts = []
+        for x in "ab":
+            o = obs[x]
+            if o.get("raised") or not o["snap_equal"]:
+                return "false"
+            sub = {"kind": "fib", "graph": "fattree", "k": case["k" + x], "tcp": case["tcp" + x]}
+            ts.append("(" + self.agree_fib(sub, o) + ")")
+            ts.append("(" + self.agree_fattree({"kind": "fattree", "k": case["k" + x]}, o["shape"]) + ")")
+        if case["sim"]:
+            sub = {"kind": "e2e", "k": case["ka"], "tcp": case["tcpa"], "variant": "portwire"}
+            ts.append("(" + self.agree_e2e(sub, obs["sim"]) + ")")
+        return " && ".join(ts)
 
     def agree_flowdemux(self, case, obs):
         ts = []
@@ -1090,7 +1243,50 @@ class C18(Prop):
     # ============================================================================================
     # the property as an oracle over the implementation's behaviour (no Coq model involved)
     def monitor(self, case, obs):
-        return getattr(self, "mon_" + case["kind"])(case, obs)[:4]
+        msgs = getattr(self, "mon_" + case["kind"])(case, obs)[:4]
+        if case.get("canary"):
+            msgs += self.mon_canary(case, obs.get("canary") or {})
+        return msgs
+
+    def mon_canary(self, case, c):
+        """the fixed tree of the canary must not be touched by the case that ran in between, nor by anything that ran earlier in
+        this process: instances of FatTree are independent"""
+        b = c.get("before") or {}
+        if b.get("raised") or c.get("raised"):
+            return [f"instances-interfere-canary: building the canary tree raised {b.get('raised') or c.get('raised')}"]
+        msgs = []
+        if b.get("entries") != self.CANARY_ENTRIES:
+            m = self.mon_fib(self.CANARY_CASE, b)
+            msgs.append("instances-interfere-canary: FatTree(4) with the two fixed flows, built before the case: tables differ from the "
+                        f"recorded ones (state surviving from earlier cases in this process?) {m[:1]}")
+        if c.get("after") != b.get("entries"):
+            gone = [e for e in (b.get("entries") or []) if e not in (c.get("after") or [])]
+            msgs.append(f"instances-interfere-canary: the tables of a FatTree(4) built before this {case['kind']} case changed while the case "
+                        f"ran (its own FatTree / generate_fib touched another instance): {len(gone)} entries gone, e.g. {gone[:2]}")
+        if c.get("rebuilt") != self.CANARY_ENTRIES:
+            msgs.append("instances-interfere-canary: FatTree(4) with the two fixed flows rebuilt after the case: tables differ from the recorded ones")
+        return msgs[:2]
+
+    def mon_twotrees(self, case, obs):
+        if "setup_raised" in obs:
+            return [f"instances-interfere-raises: two FatTree objects ({case['ka']}, {case['kb']}), order {case['order']}: {obs['setup_raised']}"]
+        msgs = []
+        ctx = f"FatTree A(k={case['ka']}) and B(k={case['kb']}) alive together, order '{case['order']}'"
+        for x in "ab":
+            o = obs[x]
+            if o.get("raised"):
+                msgs.append(f"instances-interfere: {ctx}: reading tree {x.upper()} raised {o['raised']}")
+                continue
+            sub = {"kind": "fib", "graph": "fattree", "k": case["k" + x], "tcp": case["tcp" + x]}
+            for m in self.mon_fib(sub, o)[:1] + self.mon_fattree({"kind": "fattree", "k": case["k" + x]}, o["shape"])[:1]:
+                msgs.append(f"instances-interfere: {ctx}: tree {x.upper()} no longer satisfies its own clauses: {m}")
+            if not o["snap_equal"]:
+                msgs.append(f"instances-interfere: {ctx}: the tables of tree {x.upper()} changed after its own generate_fib (the other tree's calls touched them)")
+        if case["sim"]:
+            sub = {"kind": "e2e", "k": case["ka"], "tcp": case["tcpa"], "variant": "portwire"}
+            for m in self.mon_e2e(sub, obs["sim"])[:1]:
+                msgs.append(f"instances-interfere: {ctx}: network built from A's tables after all calls on B: {m}")
+        return msgs
 
     def mon_flowdemux(self, case, obs):
         msgs = []
@@ -1243,6 +1439,12 @@ class C18(Prop):
                 msgs.append(f"hub-port-device-bypassed: src e{s}{when}: port devices {sorted(got_port)} got the packet; expected {exp_port}")
             elif not r["same"]:
                 msgs.append("hub-not-same-packet: an endpoint got another object than the packet put")
+        tw = obs.get("twin")
+        if tw is not None:
+            if tw["raised"] or tw["events"] != [["twin", 0]] or tw["n_endpoints"] != 1 or tw["n_outs"] != 1 or tw["n_ports_attr"] != 0 \
+                    or tw["main_endpoints"] != len(pop):
+                msgs.append(f"instances-interfere-hub: a second Hub(env) built without arguments next to this hub: {tw} "
+                            f"(expected its own single endpoint only; the main hub has {len(pop)} endpoints)")
         return msgs
 
     def _mon_split_round(self, att, hdr, b, what=""):
@@ -1451,10 +1653,14 @@ class C18(Prop):
             return case["k"] >= 4
         if kd == "fib":
             return len(obs.get("flows", [])) >= 1
+        if kd == "twotrees":
+            return "a" in obs and "b" in obs
         return len(obs.get("packets", [])) >= 1
 
     def shrink(self, case):
         kd = case["kind"]
+        if case.get("twin"):
+            yield {**case, "twin": False}
 
         def drop(key):
             l = case.get(key)
@@ -1514,6 +1720,16 @@ class C18(Prop):
                     if len(p) > 2:
                         yield {**case, "flows": case["flows"][:i] + [[f, p[:-1]]] + case["flows"][i + 1:]}
                         yield {**case, "flows": case["flows"][:i] + [[f, p[1:]]] + case["flows"][i + 1:]}
+        elif kd == "twotrees":
+            if case["sim"]:
+                yield {**case, "sim": False}
+            for x in "ab":
+                if case["nf" + x] > 1:
+                    yield {**case, "nf" + x: 1}
+                if case["tcp" + x]:
+                    yield {**case, "tcp" + x: False}
+            if case["ka"] == case["kb"] and case["ka"] > 2:
+                yield {**case, "ka": case["ka"] - 2, "kb": case["kb"] - 2}
         elif kd == "e2e":
             if case["nflows"] > 1:
                 yield {**case, "nflows": case["nflows"] - 1}
@@ -1579,6 +1795,11 @@ class C18(Prop):
                 keys.append("splitter:mutation")
             if case.get("pre"):
                 keys.append("splitter:outputs-re-pointed")
+        elif kd == "twotrees":
+            keys.append("twotrees:same-k" if case["ka"] == case["kb"] else "twotrees:different-k")
+            keys.append("twotrees:order=" + case["order"].replace(" ", "-"))
+            if case["sim"]:
+                keys.append("twotrees:simulated")
         elif kd == "fattree":
             keys.append("fattree:k=%d" % case["k"])
         elif kd == "fib":
@@ -1590,6 +1811,10 @@ class C18(Prop):
             fl = obs.get("flows", [])
             if case["variant"] != "portwire" and len(set(f % case["ncls"] for f, _, _, _ in fl)) < len(fl):
                 keys.append("e2e:flows-share-class")
+        if case.get("canary"):
+            keys.append("canary:" + kd)
+        if case.get("twin"):
+            keys.append("hub:twin-hub-alive")
         return keys
 
 
